@@ -576,9 +576,10 @@ pub fn scenarios(tier: &str) -> Vec<Scenario> {
             // with two-node trees the product of the three per-message spaces runs for hours
             multi(3, Opts { max_depth: 1, max_nodes: 1, max_children: 1, vary_output: false, vary_ids: false, reply_subs: false, inst_leaves: false })
         }));
-        v.push(Scenario::new("execute_multi_2_msgs_chains_of_3", &["multi_ok", "multi_err"], || {
-            // chains of up to three nodes per contract call (branching trees square to ~10^8 paths)
-            multi(2, Opts { max_depth: 2, max_nodes: 3, max_children: 1, vary_output: false, vary_ids: false, reply_subs: false, inst_leaves: false })
+        v.push(Scenario::new("execute_multi_2_msgs_nested_contract_calls", &["multi_ok", "multi_err"], || {
+            // two-node trees whose second node may itself be a contract call (three-node trees square to
+            // 10^6-10^8 paths and were measured not to finish within the hour)
+            multi(2, Opts { max_depth: 2, max_nodes: 2, max_children: 1, vary_output: false, vary_ids: false, reply_subs: false, inst_leaves: false })
         }));
     }
     v
